@@ -428,6 +428,42 @@ func deadLetters(o *Obs, sim *Sim) error {
 	return nil
 }
 
+// ---- C01 --------------------------------------------------------------------
+
+// CheckC01: every message the model says is handled arrives exactly once, in the model's order (one
+// driver goroutine plus the actor's own self-sends: every pair of sends to the actor is ordered by
+// happens-before), with the message value and the sender given at the send.
+func CheckC01(spec Spec, o *Obs, sim *Sim) error {
+	if o.Diverged != "" {
+		return nil // the actor left the model for a reason that is another property's business
+	}
+	rs := o.recv()
+	var got, want []string
+	for _, e := range rs {
+		if e.Kind == "user" {
+			got = append(got, fmt.Sprintf("#%d/from%d", e.ID, e.From))
+		}
+	}
+	for _, x := range sim.Exp {
+		if x.Kind == "user" {
+			want = append(want, fmt.Sprintf("#%d/from%d", x.ID, x.From))
+		}
+	}
+	if strings.Join(got, " ") != strings.Join(want, " ") {
+		i := 0
+		for i < len(got) && i < len(want) && got[i] == want[i] {
+			i++
+		}
+		return fmt.Errorf("deliveries (message id / sender) differ from the sends at position %d: lost, duplicated, reordered or with another sender\n got:  %s\n want: %s", i, clip(got[max(0, i-3):]), clip(want[max(0, i-3):]))
+	}
+	for _, e := range rs {
+		if e.Kind == "user" && !e.MsgOK {
+			return fmt.Errorf("message %d arrived with a value that differs from what was sent", e.ID)
+		}
+	}
+	return nil
+}
+
 // ---- C02 --------------------------------------------------------------------
 
 // CheckC02: Receive is serial.  The histories are the same as for C04/C05; the observation is an
@@ -682,6 +718,7 @@ type Features struct {
 	Respawns          int
 	StartGate         bool
 	Gates             int  // gate ops (the receiver blocked inside Receive)
+	LongChain         bool // a self-feeding chain of more than 300 links (the inbox's throughput)
 	BatchCross        bool // a queued window larger than the batch size
 	SpawnSends        bool
 	DeadLetters       int
@@ -769,6 +806,9 @@ func Classify(spec Spec, sim *Sim) Features {
 			if o.K == "send" && o.GateNext {
 				f.StartGate = true
 			}
+			if o.K == "send" && o.Chain > 300 {
+				f.LongChain = true
+			}
 			win = append(win, o)
 		}
 	}
@@ -790,6 +830,7 @@ func (f Features) Labels() []string {
 	add(f.Crashes > 0, "crash")
 	add(f.Crashes > 1, "multi-crash")
 	add(f.InternalCrashes > 0, "internal-error-restart")
+	add(f.LongChain, "self-feeding-chain>300")
 	add(f.MidBatchCrash, "mid-batch-crash")
 	add(f.CrashInReplay, "crash-in-replay")
 	add(f.LifecycleCrash, "lifecycle-crash")
